@@ -4,8 +4,8 @@ import sys, os, shutil, json, re
 pid = sys.argv[1]
 rnd = int(sys.argv[2]) if len(sys.argv) > 2 else 1
 for k in (1, 2):
-    src = ('/tmp/wt-%s/mutants/m%d' if rnd == 1 else '/tmp/wt2-%s/mutants/m%d') % (pid, k)
-    log = ('/tmp/confirm-%s-m%d.log' if rnd == 1 else '/tmp/confirm2-%s-m%d.log') % (pid, k)
+    src = {1: '/tmp/wt-%s/mutants/m%d', 2: '/tmp/wt2-%s/mutants/m%d', 3: '/tmp/wt3-%s/mutants/m%d'}[rnd] % (pid, k)
+    log = {1: '/tmp/confirm-%s-m%d.log', 2: '/tmp/confirm2-%s-m%d.log', 3: '/tmp/confirm3-%s-m%d.log'}[rnd] % (pid, k)
     if not os.path.isdir(src) or not os.path.exists(log):
         print('missing', src, log); continue
     txt = open(log).read()
